@@ -19,6 +19,22 @@ func OnceFunc(f func()) func()                                 { return sync.Onc
 func OnceValue[T any](f func() T) func() T                     { return sync.OnceValue(f) }
 func OnceValues[T1, T2 any](f func() (T1, T2)) func() (T1, T2) { return sync.OnceValues(f) }
 
+// unlockYield makes every Unlock/RUnlock a scheduling point that is taken BEFORE the lock is released. With blocking
+// Lock only, a preemption inside a critical section is indistinguishable from one right after it (the others can only
+// block), so the point is normally omitted. It becomes observable as soon as the instrumented code uses TryLock /
+// TryRLock (a failed attempt is an outcome): tools/vinstr emits an init() calling SetUnlockIsSchedulingPoint for every
+// instrumented file that contains such a call, so the setting is fixed before the first execution (determinism).
+var unlockYield bool
+
+// SetUnlockIsSchedulingPoint switches the extra scheduling point on (see unlockYield).
+func SetUnlockIsSchedulingPoint() { unlockYield = true }
+
+func unlockPoint(what string) {
+	if unlockYield && !vsched.Aborting() {
+		vsched.Yield(what)
+	}
+}
+
 // Mutex mirrors sync.Mutex.
 type Mutex struct {
 	mu   sync.Mutex
@@ -57,6 +73,7 @@ func (m *Mutex) Unlock() {
 		if !m.held && !vsched.Aborting() {
 			panic("sync: unlock of unlocked mutex")
 		}
+		unlockPoint("Mutex.Unlock")
 		m.held = false
 		return
 	}
@@ -102,6 +119,7 @@ func (m *RWMutex) Unlock() {
 		if !m.writer && !vsched.Aborting() {
 			panic("sync: Unlock of unlocked RWMutex")
 		}
+		unlockPoint("RWMutex.Unlock")
 		m.writer = false
 		return
 	}
@@ -140,6 +158,7 @@ func (m *RWMutex) RUnlock() {
 		if m.readers <= 0 && !vsched.Aborting() {
 			panic("sync: RUnlock of unlocked RWMutex")
 		}
+		unlockPoint("RWMutex.RUnlock")
 		if m.readers > 0 {
 			m.readers--
 		}
